@@ -4,7 +4,7 @@
   make the parameterised definitions coincide with the model the C06 theorems are about, and
   restate the delivery theorems for the source-derived functions.
 -/
-import NR.Facts.Generated
+import NRFacts.Generated
 import NR.Proofs.Emit
 namespace NR.FactThms.SolverFacts
 open NR.Emit NR.Proofs.Emit
